@@ -40,7 +40,7 @@ ASSUMPTIONS = ["memo caches start empty", "hash(Sym) constant / == decided by th
                "Barrier / CoordinateShiftOperation get their relation through the public relation_link setter (their constructors take none)"]
 REQUIRED_REACH = ['C05.length', 'C05.class', 'C05.fields', 'C05.channels', 'C05.duration', 'C05.relation_type', 'C05.relation_target', 'C05.schedule',
                   'C05.acquisition', 'C05.independent.original_mutated', 'C05.independent.copy_mutated', 'C05.independent.unrolled', 'C05.distinct_objects',
-                  'C05.relation_group', 'C05.schedule.after_duration_change']
+                  'C05.relation_group', 'C05.schedule.after_duration_change', 'C05.repetition.follows_registry']
 EXHAUSTIVE = {'quick': True, 'thorough': True}
 JOB_OPTS = {'quick': dict(max_paths=3000, max_seconds=300), 'thorough': dict(max_paths=20000, max_seconds=900)}
 
@@ -65,6 +65,9 @@ def jobs(tier, seed):
     for prog in UNROLLED:
         for how in ('nest', 'copy'):
             out.append({'unrolled': prog, 'how': how})
+    for how in ('nest', 'copy'):
+        for n0 in (1, 2):
+            out.append({'registry_count': True, 'how': how, 'n0': n0})
     return out
 
 
@@ -212,9 +215,42 @@ def same_times(t1, t2):
     return len(t1) == len(t2) and s_and(*[s_and(a[0] == b[0], a[1] == b[1]) for a, b in zip(t1, t2)])
 
 
+def run_registry_count(ctx, params):
+    """A block whose count is looked up in a RepetitionRegistry is copied; afterwards the registry changes: original and copy keep
+    reporting the same count and unroll to the same operation sequence (the copy is independent of *mutations*, not of shared settings)."""
+    from qce_circuit.structure.registry_repetition import RegistryRepetitionStrategy, RepetitionRegistry
+    g = cm.Globals(ctx)
+    with g.override():
+        reg = RepetitionRegistry()
+        reg.set_registry_at('n', params['n0'])
+        blk = DeclarativeCircuit(repetition_strategy=RegistryRepetitionStrategy(registry=reg, registry_key='n'))
+        blk.add(co.Wait(0, duration_strategy=FixedDurationStrategy(ctx.real('d_a', lo=0))))
+        blk.add(co.Rx180(0))
+        parent = DeclarativeCircuit()
+        parent.add(co.Wait(0, duration_strategy=FixedDurationStrategy(ctx.real('d_p', lo=0))))
+        original = parent.add(blk)            # the block as it lives in `parent`
+        if params['how'] == 'copy':
+            copied = original.copy()
+        else:
+            holder = DeclarativeCircuit()
+            copied_parent = holder.add(parent)
+            copied = [k for k in cm.composite_children(copied_parent) if isinstance(k, CircuitCompositeOperation)][0]
+        info = {'how': params['how'], 'count_at_copy': params['n0']}
+        ctx.check('C05.repetition.at_copy', original.nr_of_repetitions == copied.nr_of_repetitions == params['n0'], info)
+        for new in (3, 1, 2):
+            reg.set_registry_at('n', new)
+            ctx.check('C05.repetition.follows_registry', original.nr_of_repetitions == new and copied.nr_of_repetitions == new,
+                      dict(info, registry=new, original=original.nr_of_repetitions, copy=copied.nr_of_repetitions))
+        n_orig = len(original.copy().apply_modifiers_to_self().decomposed_operations())
+        n_copy = len(copied.copy().apply_modifiers_to_self().decomposed_operations())
+        ctx.check('C05.repetition.unrolled_length', n_orig == n_copy == 4, dict(info, original=n_orig, copy=n_copy, expected=4))
+
+
 def run(ctx, params):
     if 'unrolled' in params:
         return run_unrolled(ctx, params)
+    if params.get('registry_count'):
+        return run_registry_count(ctx, params)
     g = cm.Globals(ctx)
     how = params['how']
     with g.override():
